@@ -53,7 +53,19 @@ RULE = (
     "driven through every history of length 1..3 over 11 steps (6 calls with T in {3,5,8}, N in {2,3}, lengths given "
     "or omitted; eval()/train(); reassigning max_time_mask, max_time_warp, num_freq_mask) that ends in a call, 2 limit "
     "sets x 2 (thorough 4) fixed answer sets x F: the last call must be bit-identical to a FRESH module with the "
-    "current limits and mode under the same scripted answers. Every leaf is a distinct (limits, lengths, answers) triple by construction; a leaf "
+    "current limits and mode under the same scripted answers; histories that reassign an attribute listed in "
+    "SpecAugment.__constants__ are executed and COUNTED (constants_reassigned_honoured / _ignored), never judged. "
+    "LIFECYCLE pass: mc.guards.lifecycle_variants (deepcopy, pickle, torch.save, used+deepcopy, eval+deepcopy, "
+    "state_dict, state_dict-after-use, double-float, state_dict-into-other) of SpecAugment configured with every limit "
+    "at its falsy-but-legal 0 / 0.0 in turn, all limits 0, and two ordinary limit sets, on inputs (T,F,lengths) in "
+    "{(5,2,[2,5]),(8,4,omitted),(13,1,[1,7,13])} (quick: single-zero sets on one input each) x 4 answer-pair "
+    "rotations: options and mode must be unchanged, the variant's draw must be bit-identical to the fresh object's "
+    "under the same answers, and every draw/apply/__call__ check above runs on the variant against the CONFIGURED "
+    "caps. ENTRY pass: 5 limit sets (nothing enabled, masks only, frequency masks only, two with warps) x the same "
+    "inputs x float32 and float64 features (doubles not representable in float32) x 6 answer-pair rotations: "
+    "Module.draw_parameters+apply_parameters is checked cell by cell (unmasked cells bit-identical when no warp), and "
+    "Module.__call__, Module.forward, functional draw+apply and functional spec_augment must return the same dtype "
+    "and bit-identical values. Every leaf is a distinct (limits, lengths, answers) triple by construction; a leaf "
     "is non-trivial when the enabled group drew a non-empty mask or a non-zero shift. states = distinct drawn "
     "parameter tuples (with their lengths), transitions = draws, traces = draws also applied and checked (and "
     "compared with SpecAugment.__call__ / functional.spec_augment under the same answers; quick: every warp/joint leaf and a quarter of the mask leaves)."
@@ -164,6 +176,10 @@ def _leaves(unit, tier):
         return len(JOINT_PAIRS[tier]) ** 4
     if p == "hist":
         return 1000
+    if p == "life":
+        return 40 * 6
+    if p == "entry":
+        return 6 * 6
     if p == "knot":
         return (30 if unit["mode"] == "dist" else 3) * (1 + unit["T"] // 100)
     if p == "grid":
@@ -233,6 +249,16 @@ def all_units(tier):
     for T in range(1, 257 if thorough else 65):  # every padded length around very short sequences
         units.append({"pass": "knot", "mode": "sweep", "T": T, "F": 1, "lens": [L for L in (1, 2, 3) if L <= T],
                       "cfg": dict(OFF, max_time_warp=100, interpolation_order=1)})
+    # lifecycle variants of configured objects (falsy-but-legal limits in turn) and all public entry points
+    for li, (_, cfg) in enumerate(_life_cfgs()):
+        for ii, (T, F, lens) in enumerate(LIFE_INPUTS):
+            if not thorough and (li + ii) % 3 and li > 2:
+                continue  # quick: the three base sets on every input, each single-zero set on one input
+            units.append({"pass": "life", "T": T, "F": F, "lens": lens, "cfg": dict(cfg)})
+    for cfg in ENTRY_CFGS:
+        for T, F, lens in LIFE_INPUTS:
+            for dtype in ("float32", "float64"):
+                units.append({"pass": "entry", "T": T, "F": F, "lens": lens, "cfg": dict(cfg), "dtype": dtype})
     # histories on one module object
     for ci, cfg in enumerate(HIST_CFGS):
         for fi, F in enumerate(FS):
@@ -272,11 +298,13 @@ class Env:
         rng = random.Random(f"c08-{seed}-{T}-{F}-{lens}")
         vals = [[[SENTINEL if t >= L else 1.0 + 0.5 * rng.random() for _ in range(F)] for t in range(T)]
                 for L in self.lens_eff]
-        self.feats = torch.tensor(vals, dtype=torch.float32)
+        # float64 units: the band values are arbitrary doubles, i.e. NOT representable in float32
+        self.dtype = torch.float64 if unit.get("dtype") == "float64" else torch.float32
+        self.feats = torch.tensor(vals, dtype=self.dtype)
         self.inp = self.feats.tolist()
         self.vlo = [min(min(r) for r in self.inp[n][:L]) for n, L in enumerate(self.lens_eff)]
         self.vhi = [max(max(r) for r in self.inp[n][:L]) for n, L in enumerate(self.lens_eff)]
-        self.ramp = torch.arange(T, dtype=torch.float32).view(1, T, 1).expand(self.N, T, F).contiguous()
+        self.ramp = torch.arange(T, dtype=self.dtype).view(1, T, 1).expand(self.N, T, F).contiguous()
         self.keep = self.feats.clone()
         self._variants = None
         self.cfg = dict(unit["cfg"])
@@ -529,7 +557,7 @@ def _check_apply(ctx, env, params, case, out=None):
     order = env.cfg["interpolation_order"]
     if out is None:
         try:
-            if (sum(case.get("choices", ())) // 2 + case.get("k", 0) + env.N) % 2:
+            if case.get("module_only") or (sum(case.get("choices", ())) // 2 + case.get("k", 0) + env.N) % 2:
                 out = mod.apply_parameters(env.feats, params, env.lengths)
             else:
                 out = PF.spec_augment_apply_parameters(env.feats, params, order, env.lengths)
@@ -614,7 +642,7 @@ def _state(ctx, env, params):
     ctx.state(int.from_bytes(h.digest(), "big"))
 
 
-PASS_ID = {"knot": 10, "hist": 9, "tw": 1, "fw": 2, "tm": 3, "fm": 4, "joint": 5, "grid": 6, "eval": 7}
+PASS_ID = {"life": 11, "entry": 12, "knot": 10, "hist": 9, "tw": 1, "fw": 2, "tm": 3, "fm": 4, "joint": 5, "grid": 6, "eval": 7}
 
 
 def _outcome(ctx, *parts):
@@ -631,7 +659,7 @@ def _run_draw_leaf(ctx, env, chooser, mk_uniform, case_base, full=True):
     kk = case_base.get("k", 0) if isinstance(case_base.get("k", 0), int) else 0  # knot pass: leaf index
     with ScriptedRandom(chooser, uniform=mk_uniform()) as sr:
         try:
-            if (sum(chooser.prefix) + kk) % 2:  # == sum(choices): unexplored points default to answer 0
+            if case_base.get("module_only") or (sum(chooser.prefix) + kk) % 2:  # == sum(choices): unexplored points default to answer 0
                 params = mod.draw_parameters(env.feats, env.lengths)
             else:
                 params = PF.spec_augment_draw_parameters(env.feats, *env.functional_args(), env.lengths)
@@ -665,7 +693,7 @@ def _run_draw_leaf(ctx, env, chooser, mk_uniform, case_base, full=True):
         x_in = env.feats if lay == "contiguous" else env.variants()[lay][0]
         with ScriptedRandom(ch2, uniform=mk_uniform()):
             try:
-                if (sum(chooser.choices) + len(chooser.choices) // 2 + kk // 3) % 2:
+                if case_base.get("module_only") or (sum(chooser.choices) + len(chooser.choices) // 2 + kk // 3) % 2:
                     out2 = mod(x_in, env.lengths)
                     api = "SpecAugment.__call__"
                 else:
@@ -1045,6 +1073,13 @@ def _run_hist_unit(ctx, env, ui, only=None):
                 raise
             except Exception as e:
                 exp, eerr = None, e
+        consts = set(getattr(PM.SpecAugment, "__constants__", ()))
+        reassigned_const = any(steps[h][0] == "set" and steps[h][1] in consts for h in hist)
+        if reassigned_const:
+            # not a supported way to reconfigure a live module: executed and counted, never judged
+            honoured = eerr is None and err is None and _same(out, exp, exact=True)
+            ctx.count("constants_reassigned_honoured" if honoured else "constants_reassigned_ignored")
+            continue
         shape_changed = any(steps[h][0] == "call" and steps[h][1:3] != (T, N) for h in hist[:-1])
         sig = {"api": "SpecAugment.__call__", "history": True, "history_len": len(hist), "training": mode,
                "lengths_given": lens is not None, "shape_changed": shape_changed}
@@ -1069,7 +1104,160 @@ def _run_hist_unit(ctx, env, ui, only=None):
                             "last_call_output": out.tolist()})
 
 
-RUNNERS = {"knot": _run_knot_unit, "hist": _run_hist_unit, "tw": _run_group_unit, "fw": _run_group_unit, "tm": _run_group_unit, "fm": _run_group_unit,
+# ----------------------------------------------------------------------------- object lifecycle / entry points
+LIFE_BASE = dict(max_time_warp=1.0, max_freq_warp=1.0, max_time_mask=3, max_time_mask_proportion=0.5, num_time_mask=2,
+                 num_time_mask_proportion=1.0, max_freq_mask=2, num_freq_mask=2, interpolation_order=1)
+LIFE_OTHER = dict(max_time_warp=3.0, max_freq_warp=0.0, max_time_mask=1, max_time_mask_proportion=1.0, num_time_mask=1,
+                  num_time_mask_proportion=0.5, max_freq_mask=1, num_freq_mask=1, interpolation_order=2)
+LIMIT_NAMES = ("max_time_warp", "max_freq_warp", "max_time_mask", "max_time_mask_proportion", "num_time_mask",
+               "num_time_mask_proportion", "max_freq_mask", "num_freq_mask")
+
+
+def _life_cfgs():
+    """Every limit at its falsy-but-legal value (0 / 0.0) in turn, all of them at once, and two ordinary sets."""
+    out = [("ordinary", dict(LIFE_BASE)), ("ordinary-2", dict(LIFE_OTHER)), ("all-zero", dict(OFF))]
+    for name in LIMIT_NAMES:
+        out.append((name + "=0", dict(LIFE_BASE, **{name: type(LIFE_BASE[name])(0)})))
+    return out
+
+
+LIFE_INPUTS = ((5, 2, [2, 5]), (8, 4, None), (13, 1, [1, 7, 13]))
+ENTRY_CFGS = (
+    dict(OFF),
+    dict(OFF, max_time_mask=3, max_time_mask_proportion=1.0, num_time_mask=2, num_time_mask_proportion=1.0,
+         max_freq_mask=2, num_freq_mask=1),
+    dict(OFF, max_freq_mask=100, num_freq_mask=3),
+    dict(LIFE_BASE),
+    dict(LIFE_OTHER),
+)
+
+
+def _pair_uniform(aset):
+    pairs = JOINT_PAIRS["thorough"]
+    return lambda: _uniform_pairs(pairs[aset:] + pairs[:aset])
+
+
+def _run_life_unit(ctx, env, ui, only=None):
+    """Lifecycle variants of one configured SpecAugment (mc.guards.lifecycle_variants): each must draw exactly
+    what the fresh object draws under the same scripted answers, respect the CONFIGURED caps, and apply / call
+    like it (all checks of the draw passes run on the variant)."""
+    from mc.guards import GuardViolation, lifecycle_variants
+
+    unit = env.unit
+    cfg = env.cfg
+    base = {"unit": unit, "tier": env.tier, "seed": env.seed, "ui": ui}
+    fresh = env.module
+
+    def make():
+        m = PM.SpecAugment(**cfg)
+        m.train()
+        return m
+
+    def make_other():
+        m = PM.SpecAugment(**(LIFE_OTHER if cfg != LIFE_OTHER else LIFE_BASE))
+        m.train()
+        return m
+
+    def used(m):
+        with ScriptedRandom(Chooser(), uniform=_pair_uniform(1)()):
+            m(torch.ones(2, 4, 3), torch.tensor([2, 4]))
+
+    try:
+        variants = list(lifecycle_variants(make, used=used, make_other=make_other))
+    except GuardViolation as e:
+        ctx.violation({"api": "SpecAugment", "lifecycle": "construction", "symptom": "guard", "what": str(e)[:80]},
+                      dict(base, k=-1), {"error": str(e)})
+        variants = []
+    except Exception as e:  # a lifecycle operation itself raised
+        ctx.violation({"api": "SpecAugment", "lifecycle": "construction", "symptom": "raises",
+                       "type": type(e).__name__}, dict(base, k=-1), {"error": str(e)[-300:]})
+        variants = []
+    consts = [c for c in getattr(PM.SpecAugment, "__constants__", ()) if c in cfg]
+    for vi, (name, obj) in enumerate(variants):
+        # state_dict-into-other: the object keeps ITS OWN options (SpecAugment has no parameters or buffers)
+        ref_cfg = cfg if name != "state_dict-into-other" else (LIFE_OTHER if cfg != LIFE_OTHER else LIFE_BASE)
+        env_v = Env(dict(unit, cfg=ref_cfg), env.tier, env.seed) if ref_cfg is not cfg else env
+        ref = env_v.module if ref_cfg is not cfg else fresh
+        sigb = {"api": "SpecAugment", "lifecycle": name}
+        wrong = [c for c in consts if getattr(obj, c, None) != ref_cfg[c] or type(getattr(obj, c, None)) is not type(
+            getattr(ref, c))]
+        if wrong or obj.training != ref.training:
+            ctx.violation(dict(sigb, symptom="option-changed-by-lifecycle", options=wrong[:3]), dict(base, k=vi * 4),
+                          {"expected": {c: ref_cfg[c] for c in wrong}, "observed": {c: getattr(obj, c, None)
+                                                                                    for c in wrong},
+                           "training": [ref.training, obj.training]})
+        for aset in range(4):
+            if only is not None and only not in (-1, vi * 4 + aset):
+                continue
+            case = dict(base, k=vi * 4 + aset, lifecycle=name, module_only=True)
+            mk = _pair_uniform(aset)
+            with ScriptedRandom(Chooser(), uniform=mk()):
+                exp = ref.draw_parameters(env_v.feats, env_v.lengths)
+            saved = env_v.module
+            env_v.module = obj
+            try:
+                params, _ = _run_draw_leaf(ctx, env_v, Chooser(), mk, dict(case), True)
+            finally:
+                env_v.module = saved
+            if params is None:
+                continue
+            same = all(tuple(a.shape) == tuple(b.shape) and a.dtype == b.dtype and torch.equal(a, b)
+                       for a, b in zip(params, exp))
+            if not same:
+                ctx.violation(dict(sigb, symptom="draws-differ-from-fresh-object"), case,
+                              {"fresh": _plist(exp), "variant": _plist(params), "limits": ref_cfg})
+            else:
+                ctx.count("lifecycle_equals_fresh")
+                ctx.count("lifecycle_" + name)
+
+
+def _run_entry_unit(ctx, env, ui, only=None):
+    """Every public path to the mechanism under the same scripted answers, float32 and float64 features (values
+    not representable in float32): Module.draw_parameters+apply_parameters (checked cell by cell against the
+    oracle), Module.__call__, Module.forward, functional draw+apply, functional spec_augment - bit-identical."""
+    unit = env.unit
+    base = {"unit": unit, "tier": env.tier, "seed": env.seed, "ui": ui}
+    mod = env.module
+    fa = env.functional_args()
+    order = env.cfg["interpolation_order"]
+    for aset in range(len(JOINT_PAIRS["thorough"])):
+        if only is not None and aset != only:
+            continue
+        case = dict(base, k=aset)
+        mk = _pair_uniform(aset)
+        params, _ = _run_draw_leaf(ctx, env, Chooser(), mk, dict(case), True)  # draw+apply vs oracle
+        if params is None:
+            continue
+        ref = mod.apply_parameters(env.feats, params, env.lengths)
+        paths = {
+            "SpecAugment.__call__": lambda: mod(env.feats, env.lengths),
+            "SpecAugment.forward": lambda: mod.forward(env.feats, env.lengths),
+            "functional.draw+apply": lambda: PF.spec_augment_apply_parameters(
+                env.feats, PF.spec_augment_draw_parameters(env.feats, *fa, env.lengths), order, env.lengths),
+            "functional.spec_augment": lambda: PF.spec_augment(env.feats, *fa, order, env.lengths, True),
+        }
+        for api, fn in paths.items():
+            sig = {"api": api, "entry_point": True, "dtype": unit.get("dtype", "float32"),
+                   "warped": bool(env.en["tw"] or env.en["fw"])}
+            with ScriptedRandom(Chooser(), uniform=mk()):
+                try:
+                    out = fn()
+                except HarnessError:
+                    raise
+                except Exception as e:
+                    ctx.violation(dict(sig, symptom="raises", type=type(e).__name__), case, {"error": str(e)[-300:]})
+                    continue
+            _check_input_kept(ctx, env, case, api)
+            if not isinstance(out, torch.Tensor) or out.dtype != env.feats.dtype or not _same(out, ref, exact=True):
+                ctx.violation(dict(sig, symptom="differs-from-draw-then-apply"), case,
+                              {"draw_then_apply": ref.tolist(), "this_path": out.tolist()
+                               if isinstance(out, torch.Tensor) else repr(out),
+                               "dtype": str(getattr(out, "dtype", None))})
+            else:
+                ctx.count("entry_point_equal_" + unit.get("dtype", "float32"))
+
+
+RUNNERS = {"life": _run_life_unit, "entry": _run_entry_unit, "knot": _run_knot_unit, "hist": _run_hist_unit, "tw": _run_group_unit, "fw": _run_group_unit, "tm": _run_group_unit, "fm": _run_group_unit,
            "joint": _run_joint_unit, "grid": _run_grid_unit, "eval": _run_eval_unit}
 
 
@@ -1088,7 +1276,7 @@ def replay(case):
     ctx = Ctx()
     unit = case["unit"]
     env = Env(unit, case["tier"], case["seed"])
-    only = case["k"] if unit["pass"] == "knot" or "choices" not in case else case["choices"]
+    only = case["k"] if unit["pass"] in ("knot", "life", "entry") or "choices" not in case else case["choices"]
     RUNNERS[unit["pass"]](ctx, env, case.get("ui", -1), only=only)
     return ctx
 
@@ -1097,7 +1285,8 @@ def finalize(total, tier, seed):
     c = total.counters
     for name in ("cells_zeroed", "warps_dst_interior", "group_alone_equals_joint", "call_equals_draw_then_apply",
                  "layout_transposed_equal", "layout_offset_equal", "layout_float64_equal",
-                 "history_equals_fresh_module", "knot_lower_0.001", "knot_upper_0.001", "knot_lower_0.3",
+                 "history_equals_fresh_module", "lifecycle_equals_fresh", "entry_point_equal_float32",
+                 "entry_point_equal_float64", "knot_lower_0.001", "knot_upper_0.001", "knot_lower_0.3",
                  "knot_upper_0.3"):
         if not c.get(name):
             total.notes.append(f"vacuity warning: counter {name} is zero")
